@@ -155,10 +155,10 @@ func (s *Schema) AddTwoWayRel(rel Rel) error {
 // relationships (two types where each has a relationship pointing to the other
 // type), only one of the two relationships will appear in the list.
 func (s *Schema) Rels() []Rel {
-	s.buildRels()
+	relsMap := s.buildRels()
 
-	rels := make([]Rel, 0, len(s.rels))
-	for _, rel := range s.rels {
+	rels := make([]Rel, 0, len(relsMap))
+	for _, rel := range relsMap {
 		rels = append(rels, rel)
 	}
 
@@ -263,8 +263,11 @@ func (s *Schema) Check() []error {
 
 // buildRels builds the set of normalized relationships that is returned by
 // Schema.Rels.
-func (s *Schema) buildRels() {
-	s.rels = map[string]Rel{}
+//
+// The set is returned and not stored in the schema, so that Rels only reads
+// the schema and can be called from several goroutines.
+func (s *Schema) buildRels() map[string]Rel {
+	rels := map[string]Rel{}
 
 	for _, typ := range s.Types {
 		for _, rel := range typ.Rels {
@@ -276,7 +279,9 @@ func (s *Schema) buildRels() {
 				"%q %q %q %q",
 				rel.FromType, rel.FromName, rel.ToType, rel.ToName,
 			)
-			s.rels[relName] = rel
+			rels[relName] = rel
 		}
 	}
+
+	return rels
 }
